@@ -1096,7 +1096,8 @@ def main(tier: str, seed: int, replay: str | None = None) -> int:
     cfg = TIERS[tier]
     procs = min(cfg['procs'], max(2, (os.cpu_count() or 4) // 2))
     procs = int(os.environ.get('VERIF_PROCS', procs))
-    items = [('foreach', i) for i in range(cfg['foreach'])] + [('control', i) for i in range(cfg['control'])]
+    scale = float(os.environ.get('VERIF_CASE_SCALE', '1'))  # development aid
+    items = [('foreach', i) for i in range(int(cfg['foreach'] * scale))] + [('control', i) for i in range(int(cfg['control'] * scale))]
     batches = [(seed, tier, items[i::procs]) for i in range(procs)]
     results = core.pmap(run_batch, batches, workers=procs)
     for r in sorted((r for b in results for r in b), key=lambda r: (r['meta']['part'], r['meta']['idx'])):
